@@ -64,6 +64,9 @@ func (s *Solver) start() error {
 	}
 	s.in = in
 	s.out = bufio.NewReaderSize(out, 1<<16)
+	if p := os.Getenv("GOSX_SOLVER_LOG"); p != "" && s.logf == nil {
+		s.logf, _ = os.Create(p)
+	}
 	s.resetState()
 	s.preamble()
 	return nil
@@ -384,6 +387,10 @@ func (s *Solver) readSexp() (string, error) {
 		}
 		if strings.TrimSpace(line) == "" && !started {
 			continue
+		}
+		if !started && (strings.HasPrefix(line, "((error") || strings.HasPrefix(line, "(error")) {
+			// z3 4.8.12 prints an unbalanced "((error ...)" for some get-value failures
+			return "(error " + line + ")", nil
 		}
 		started = true
 		sb.WriteString(line)
